@@ -45,7 +45,38 @@ sys.exit(0)
 '''
 
 
+FEWER_OUTPUTS = '''
+import sys
+import onnx_ir as ir
+from onnxscript.rewriter._rewrite_rule import RewriteRule
+def pat(op, x):
+    a, b = op.Split(x, _outputs=2)
+    return op.Neg(a)
+def rep(op, x, **_):
+    return op.Abs(x)
+x = ir.Value(name="x", shape=ir.Shape([4]), type=ir.TensorType(ir.DataType.FLOAT))
+sp = ir.Node("", "Split", [x], num_outputs=1, attributes=[ir.AttrInt64("num_outputs", 1)]); sp.outputs[0].name = "s0"
+ng = ir.Node("", "Neg", [sp.outputs[0]]); ng.outputs[0].name = "y"
+g = ir.Graph([x], [ng.outputs[0]], nodes=[sp, ng], opset_imports={"": 18}, name="g")
+m = ir.Model(g, ir_version=10)
+rule = RewriteRule(pat, rep)
+r = rule._matcher.match(m, g, ng, verbose=0)
+bad = 0
+if r:
+    print("pattern 'a, b = Split(x); Neg(a)' against a Split with ONE output: match() reports success, outputs bound:", r.outputs)
+    bad = 1
+try:
+    n = rule.apply_to_model(m)
+except Exception as e:
+    print("apply_to_model raises", type(e).__name__ + ":", e)
+    bad = 1
+sys.exit(bad)
+'''
+
+
 def replay(ob):
+    if "a_false_result_is_recorded_as_a_failed_match" in ob["name"]:
+        return FEWER_OUTPUTS
     if "clone.or_pattern" in ob["name"]:
         return CLONE_OR
     if "merge.keeps_node_bindings" in ob["name"] or "merge.keeps_value_bindings" in ob["name"]:
